@@ -26,8 +26,12 @@
 
 #include "sim.h"
 
+#include <setjmp.h>
 World W;
 WBuf g_extra;
+extern jmp_buf g_exit_jmp;
+extern int g_exit_jmp_active;
+extern int g_exit_status;
 
 static int g_in_callback = 0;
 
@@ -547,6 +551,13 @@ int __wrap_unlink(const char *path)
 void __wrap_exit(int status)
 {
   sim_count(C_EXIT_CALLS);
+  if (g_exit_jmp_active)
+  {
+    // in-process history (mode 2): exit() ends this assembly, not the process
+    g_exit_status = status;
+    sim_event(SEAM_EXIT, 100, (uint64_t)(int64_t)status);
+    longjmp(g_exit_jmp, 1);
+  }
   sim_finish(HOW_EXIT, status);
 }
 
